@@ -49,18 +49,50 @@ func genC11(seed uint64, tier string) *Scenario {
 		return sc
 	}
 	nshared = len(sc.Res)
-	// a shared Regexp with a deadline that serves catastrophic and quick calls
-	heavyRe := -1
-	var heavyFam catFam
+	// shared Regexps with (different) deadlines that serve catastrophic and quick calls: concurrent deadlines
+	// start, extend and outlive the shared clock
+	var heavyRes []int
+	var heavyFams []catFam
 	if r.chance(1, 4) {
-		heavyFam = catastrophic[r.n(len(catastrophic))]
+		longDeadlines := r.chance(1, 2)
+		if longDeadlines {
+			// slow callers: a second of virtual time (the clock's shutdown slop) becomes affordable, so one
+			// deadline can lie beyond the point where the clock would stop if only the other one counted
+			// (the clock period is scaled with the step cost, as everywhere: a clock tick must stay cheap
+			// relative to the period, else the clock task itself saturates the virtual CPU)
+			p = int64(5 * time.Millisecond)
+			sc.PeriodNs = p
+			minCost, maxCost = int64(1<<40), int64(0)
+			for c := range costs {
+				costs[c] = p/500 + r.i64(p/200-p/500)
+				if costs[c] < minCost {
+					minCost = costs[c]
+				}
+				if costs[c] > maxCost {
+					maxCost = costs[c]
+				}
+			}
+		}
 		maxD := scriptOpCap*minCost/4 - 3*p
-		if maxD > 4*p {
-			d := 2*p + r.i64(min64(maxD-2*p, 30*p))
-			sc.Res = append(sc.Res, ReSpec{Pat: heavyFam.Pat, Opts: heavyFam.Opts, TimeoutNs: d})
-			heavyRe = len(sc.Res) - 1
+		if maxD > 8*p {
+			d := 2*p + r.i64(min64(maxD/4-2*p, 14*p)+1)
+			for k := 0; k < 1+r.n(2); k++ {
+				f := catastrophic[r.n(len(catastrophic))]
+				sc.Res = append(sc.Res, ReSpec{Pat: f.Pat, Opts: f.Opts, TimeoutNs: d})
+				heavyRes = append(heavyRes, len(sc.Res)-1)
+				heavyFams = append(heavyFams, f)
+				if longDeadlines {
+					d += int64(time.Second) + r.i64(int64(300*time.Millisecond))
+				} else {
+					d = d*int64(2+r.n(3)) + r.i64(p) // the next one has a clearly longer deadline
+				}
+				if d > maxD {
+					break
+				}
+			}
 		}
 	}
+	timedFirst := len(heavyRes) > 0 && r.chance(1, 2)
 	estSteps := int64(0)
 	for c := 0; c < ncl; c++ {
 		cl := Client{Cost: costs[c]}
@@ -78,9 +110,19 @@ func genC11(seed uint64, tier string) *Scenario {
 		}
 		for i := 0; i < nops; i++ {
 			var op Op
-			switch x := r.n(20); {
+			x := r.n(20)
+			if timedFirst && i == 0 {
+				x = 0 // every client starts with a timed call: the clock is started by several callers at once
+			}
+			heavyRe := -1
+			var heavyFam catFam
+			if len(heavyRes) > 0 {
+				k := r.n(len(heavyRes))
+				heavyRe, heavyFam = heavyRes[k], heavyFams[k]
+			}
+			switch {
 			case heavyRe >= 0 && x < 4:
-				if r.chance(1, 2) {
+				if r.chance(2, 3) {
 					op = Op{Kind: heavyKinds[r.n(len(heavyKinds))], Re: heavyRe, In: heavyFam.In, Heavy: true, N: -1, Repl: "<$0>"}
 					if v := pristine(sc.Res[heavyRe], &op, scriptOpCap); !v.capped {
 						continue
